@@ -28,11 +28,11 @@ def run(rep, prop):
     states = trans = 0
     exhaustive = True
     for uname, maxd, maxl in plan:
-        # quick: a universe that is not closed after 20 minutes (on the unchanged tree each closes within a minute) is reported as
+        # quick: a universe that is not closed after 10 minutes (on the unchanged tree each closes within a minute) is reported as
         # not exhausted instead of being explored for hours - a library that keeps memoised state in its objects multiplies the
         # concrete states by the memo contents; what was explored until then is judged as usual
         r = bfs.explore(uname, rep.acc, max_depth=maxd, max_links=maxl, phase2=PHASE2.get((uname, rep.tier)), state_cap=400000,
-                        time_cap=1200 if rep.tier == 'quick' else None)
+                        time_cap=600 if rep.tier == 'quick' else None)
         r['link_bound'] = maxl
         per.append({k: v for k, v in r.items() if k not in ('state_list', 'U')})
         states += r['states']
